@@ -177,7 +177,7 @@ class HistRunner:
         return True
 
     # ------------------------------------------------------------------ commands
-    def redo(self, argv, j=1, keep=False, shuffle=False, extra_env=None, cwd=None, timeout=90):
+    def redo(self, argv, j=1, keep=False, shuffle=False, extra_env=None, cwd=None, timeout=90, stutter=None):
         env = base_env(dict(RV_TRACE=self.trace, RV_TOP=self.top))
         env.update(self.env_extra)
         if self.verif_log:
@@ -197,7 +197,7 @@ class HistRunner:
             env.update(js.env())
             pass_fds = js.fds()
         try:
-            r = run_cmd(argv, cwd or self.top, env=env, timeout=timeout, pass_fds=pass_fds)
+            r = run_cmd(argv, cwd or self.top, env=env, timeout=timeout, pass_fds=pass_fds, stutter=stutter)
             r_tokens = None
             if js:
                 r_tokens = (js.initial, js.drain())
